@@ -260,8 +260,16 @@ def clause_multi_write_bracketed(prog, rep, sites):
         if nwr < 2:
             continue
         n += 1
-        raii = any(c.name in ("transaction", "unchecked_transaction", "savepoint", "transaction_with_behavior") and "rusqlite" in (c.krate or "")
-                   for q in ext if q in prog.fns for c in prog.fns[q].live_calls())
+        # the RAII form: any rusqlite call that yields a Transaction / Savepoint guard
+        raii = False
+        for q in ext:
+            g = prog.fns.get(q)
+            if not g:
+                continue
+            for c in g.live_calls():
+                dty = str(g.locals[c.dst[0]]) if c.dst and c.dst[0] < len(g.locals) else ""
+                if c.krate == "rusqlite" and any(x in dty for x in ("rusqlite::Transaction<", "rusqlite::Savepoint<", "transaction::Transaction<", "transaction::Savepoint<")):
+                    raii = True
         br = any(s_.stmt.kind in ("BEGIN", "SAVEPOINT") for s_ in ss) or raii
         rep.check(br, "sql-bracket", "%s/multi-write-bracketed" % f.label(),
                   "the %d write statements of this method run inside a transaction / savepoint" % nwr,
